@@ -514,6 +514,10 @@ func main() {
 		{"validTag", ""}, {"validTagValue", ""}, {"DecodeCTCP", ""}, {"parseCMD", "CTCP"}, {"IsValidChannelMode", ""}, {"Fmt", ""}})
 	p.byteSliceLits(o, "IsValidChannel")
 
+	o.pf("/-! ## cmdhandler -/\n")
+	ch := load(filepath.Join(*repo, "cmdhandler"))
+	ch.strConsts(o, []string{"cmdMatch", "validName"})
+
 	o.pf("end Girc.Gen\n")
 
 	for _, n := range o.notes {
